@@ -76,15 +76,18 @@ def loadPrefix (env : NsEnv) (uri : Str) (m : NsMap) : Pfx × NsMap :=
 /-- `prefix_exists(uri, ns_map)` -/
 def prefixExists (uri : Str) (m : NsMap) : Bool := m.any (fun e => e.2 = uri)
 
+/-- `prefix or None` -/
+def normPfx : Pfx → Pfx
+  | some [] => none
+  | other => other
+
 /-- the first loop of `clean_prefixes` -/
 def cleanLoop : List (Pfx × Str) → NsMap → NsMap
   | [], acc => acc
   | (p, ns) :: r, acc =>
     if ns.isEmpty then cleanLoop r acc
     else
-      let p' : Pfx := match p with
-        | some [] => none
-        | other => other
+      let p' : Pfx := normPfx p
       if dhas acc p' then cleanLoop r acc else cleanLoop r (dset acc p' ns)
 
 /-- `clean_prefixes(ns_map)`; the argument lists the user dict's items in
